@@ -153,9 +153,7 @@ class Memory(Backend):
     async def expire(self, key: Key, timeout: float):
         if not await self._key_exist(key):
             return
-        value = await self._get(key, default=_missed)
-        if value is _missed:
-            return
+        _, value = self.store[key]  # the stored (encoded) form: the value itself does not change
         self._set(key, value, timeout)
 
     async def get_expire(self, key: Key) -> int:
